@@ -190,6 +190,9 @@ int Canon::canon(int t) {
     else if (y.op == TT.OP_CONCAT) { int pos = 0; for (int a : y.a) { int w = TT.t[a].bytes; if (lo >= pos && lo + len <= pos + w) { r = (lo == pos && len == w) ? a : canon(TT.mk(TT.OP_PIECE, {a}, lo - pos, len)); break; } pos += w; } }
   }
   else if (x.op == TT.OP_SELECT && x.a[1] == x.a[2]) r = x.a[1];
+  else if (x.op == TT.OP_SELECT && TT.t[x.a[0]].op == TT.OP_NOT) r = canon(TT.mk(TT.OP_SELECT, {TT.t[x.a[0]].a[0], x.a[2], x.a[1]}, 0, x.bytes));
+  else if (x.op == TT.OP_NOT && TT.t[x.a[0]].op == TT.OP_NOT) r = TT.t[x.a[0]].a[0];
+  else if (op == "icmp.eq") { int p = x.a[0], q = x.a[1]; if (q < p) std::swap(p, q); r = TT.mk(TT.OP_NOT, {TT.mk("icmp.ne", {p, q}, x.k, 1)}, 0, 1); }
   else if (x.op == TT.OP_CONCAT) { // concat of consecutive pieces of one term
     int base = -1, next = 0; bool ok = true;
     for (int a : x.a) { const Term &p = TT.t[a]; if (p.op != TT.OP_PIECE) { ok = false; break; } if (base < 0) base = p.a[0]; if (p.a[0] != base || p.k != next) { ok = false; break; } next += p.bytes; }
